@@ -243,3 +243,75 @@ Proof.
   - apply andb_true_iff in H2 as [_ H2]. apply negb_true_iff in H2. subst n2.
     assert (leqb textkey textkey = true) by now apply leqb_eq. congruence.
 Qed.
+
+(* ---------------------------------------------------------------- single values and lists *)
+Section ItemsProofs.
+Variable V : Type.
+Variable single : N -> bool.
+Variable force_list : bool.
+Notation addi := (addi V single force_list).
+Notation wrap := (wrap V single force_list).
+Notation decode_children := (decode_children V single force_list).
+Notation encode_children := (encode_children V).
+
+Lemma fst_wrap kvs : fst (wrap kvs) = fst kvs.
+Proof.
+  destruct kvs as [k vs]. unfold Converters.wrap. cbn [fst snd].
+  destruct vs as [|v0 [|v1 vs']]; reflexivity.
+Qed.
+
+Lemma snd_wrap_app k vs v : vs <> [] ->
+  snd (wrap (k, vs ++ [v])) =
+  match snd (wrap (k, vs)) with One v0 => Many [v0; v] | Many vs' => Many (vs' ++ [v]) end.
+Proof.
+  intro Hne. unfold Converters.wrap. cbn [fst snd].
+  destruct vs as [|v0 [|v1 vs']]; [congruence| |reflexivity].
+  cbn [app]. now destruct (single k && negb force_list).
+Qed.
+
+Lemma wrap_add k v : forall g, Forall (fun kvs => snd kvs <> []) g ->
+  map wrap (add V k v g) = addi k v (map wrap g).
+Proof.
+  induction g as [|[k' vs] r IH]; intro Hne; [reflexivity|].
+  inversion Hne as [|? ? Hvs Hr]; subst. cbn [snd] in Hvs. cbn [Converters.add map].
+  pose proof (fst_wrap (k', vs)) as Hf. cbn [fst] in Hf.
+  destruct (wrap (k', vs)) as [kw it] eqn:Ew. cbn [fst] in Hf. subst kw. cbn [Converters.addi].
+  destruct (N.eqb_spec k' k) as [->|Hneq].
+  - cbn [map]. f_equal. pose proof (snd_wrap_app k vs v Hvs) as Hs. rewrite Ew in Hs. cbn [snd] in Hs.
+    pose proof (fst_wrap (k, vs ++ [v])) as Hf2. cbn [fst] in Hf2.
+    destruct (wrap (k, vs ++ [v])) as [k2 it2]. cbn [fst snd] in *. now subst.
+  - cbn [map]. rewrite Ew. now rewrite IH.
+Qed.
+
+Lemma add_nonempty k v g : Forall (fun kvs : N * list V => snd kvs <> []) g ->
+  Forall (fun kvs : N * list V => snd kvs <> []) (add V k v g).
+Proof.
+  induction g as [|[k' vs] r IH]; intro H; cbn [Converters.add].
+  - constructor; [cbn; congruence | constructor].
+  - inversion H as [|? ? Hvs Hr]; subst. destruct (N.eqb k' k).
+    + constructor; [cbn [snd] in *; destruct vs; cbn; congruence | exact Hr].
+    + constructor; [exact Hvs | now apply IH].
+Qed.
+
+Lemma decode_is_wrapped_group : forall l g, Forall (fun kvs => snd kvs <> []) g ->
+  fold_left (fun g kv => addi (fst kv) (snd kv) g) l (map wrap g) = map wrap (fold_left (addp V) l g).
+Proof.
+  induction l as [|[k v] r IH]; intros g Hg; [reflexivity|]. cbn [fold_left fst snd].
+  unfold addp at 2. cbn [fst snd]. rewrite <- (wrap_add k v g Hg). apply IH. now apply add_nonempty.
+Qed.
+
+Lemma encode_wrap g : encode_children (map wrap g) = ungroup V g.
+Proof.
+  induction g as [|[k vs] r IH]; [reflexivity|]. unfold Converters.encode_children, Converters.ungroup in *.
+  cbn [map flat_map fst snd]. rewrite IH. f_equal. unfold Converters.wrap. cbn [fst snd].
+  destruct vs as [|v0 [|v1 vs']]; [reflexivity| |reflexivity].
+  destruct (single k && negb force_list); reflexivity.
+Qed.
+
+Theorem children_roundtrip l : contiguous V l = true -> encode_children (decode_children l) = l.
+Proof.
+  intro Hc. unfold Converters.decode_children.
+  change (@nil (N * item V)) with (map wrap (@nil (N * list V))).
+  rewrite decode_is_wrapped_group by constructor. rewrite encode_wrap. now apply contiguous_roundtrip.
+Qed.
+End ItemsProofs.
